@@ -141,9 +141,15 @@ def build_harness(name, sanitize=True, extra=None, opt=None):
     for old in glob.glob(os.path.join(d, name + '_*')):
         try: os.remove(old)
         except OSError: pass
-    r = sh(flags + [src, '-o', exe + '.tmp', '-lpthread'])
+    tmp = f'{exe}.tmp{os.getpid()}'
+    for attempt in range(5):
+        r = sh(flags + [src, '-o', tmp, '-lpthread'])
+        # a compiler killed by the kernel (out of memory on a loaded machine) says nothing about the code: wait and try again
+        if r.returncode != 0 and re.search(r'Killed signal|Cannot allocate memory|virtual memory exhausted|std::bad_alloc|out of memory', r.stdout):
+            time.sleep(30 * (attempt + 1)); continue
+        break
     if r.returncode != 0: return None, r.stdout[-3000:]
-    os.replace(exe + '.tmp', exe)
+    os.replace(tmp, exe)
     return exe, r.stdout[-500:]
 
 def run_harness(exe, outdir, seed, tier, extra_args=None, timeout=3600, env=None):
